@@ -94,6 +94,11 @@ def showClassX (c : ClassVX) : String :=
 def showDexX (d : DexVX) : String :=
   showDex d.base ++ " X[" ++ sep "|" (d.classes.map showClassX) ++ "]"
 
+
+def showDbgOp (o : DbgOp) : String := s!"{o.op}:" ++ sep "," (o.args.map toString)
+def showDebug (d : DebugInfo) : String :=
+  s!"{d.lineStart} [" ++ sep "," (d.paramNames.map toString) ++ "] " ++ sep ";" (d.ops.map showDbgOp)
+
 def showEncF (l : List EncField) : String := sep "/" (l.map fun f => s!"{f.idx}:{f.flags}")
 def showEncM (l : List EncMethod) : String := sep "/" (l.map fun m => s!"{m.idx}:{m.flags}:{m.codeOff}")
 
@@ -107,6 +112,16 @@ def handle (line : String) : String :=
   | ["dexx", h] => match parseHex h with
     | some bs => (match parseDexX bs with
       | .ok d => showDexX d
+      | .error e => s!"err {e}")
+    | none => "bad-op"
+  | ["debuginfo", h] => match parseHex h with
+    | some bs => (match decDebugInfo bs with
+      | some (d, r) => s!"ok {bs.length - r.length} {showDebug d}"
+      | none => "err")
+    | none => "bad-op"
+  | ["dexdbg", h] => match parseHex h with
+    | some bs => (match parseDex bs with
+      | .ok d => "ok " ++ sep "|" ((debugOfView bs d).map fun p => s!"{p.1}=" ++ (match p.2 with | some x => showDebug x | none => "err"))
       | .error e => s!"err {e}")
     | none => "bad-op"
   | ["classdata", h] => match parseHex h with
